@@ -20,6 +20,19 @@ def bridge_address(rep, rule, c, env, CYC):
             hi = v[2][0][2][2]
             lin_in_n = hi == n_ or (hi[0] == 'lin' and any(t == n_ for t, _ in hi[2]) and
                                     not any(x[0] == 'call' and x[1] in (('name', 'exact_log2'), ('name', 'ceil_log2')) for x in ir.walk(hi)))
+            # log2 of a quantity that does not depend on the granularity at all (data_width // 8: byte lanes) cannot be log2 of the
+            # number of granules data_width // granularity for every configuration
+            if hi[0] == 'call' and hi[1] in (('name', 'exact_log2'), ('name', 'ceil_log2')) and len(hi[2]) == 1:
+                arg = hi[2][0]
+                names = {ir.show(x) for x in ir.walk(arg) if x[0] in ('attr', 'name')}
+                dep = any(('granularity' in nm) or nm.endswith('.sel') or ('csr' in nm) for nm in names)
+                consts = [x[1] for x in ir.walk(arg) if x[0] == 'const' and isinstance(x[1], int) and x[1] > 1]
+                if not dep and consts and any('data_width' in nm for nm in names):
+                    rep.bad(rule, site, "csr.addr == Cat(cycle[:log2(n)], wb.adr) (granule index in the low bits)",
+                            f"the sequencer contributes cycle[:{ir.show(hi)}]: the bit count is derived from {ir.show(arg)}, which does not depend on "
+                            "the granularity, while the number of granules is data_width // granularity (= len(sel)): for every CSR data width other "
+                            f"than {consts[0]} the CSR address is formed with the wrong number of index bits", line=d_.lineno)
+                    return False
             if lin_in_n:
                 rep.bad(rule, site, "csr.addr == Cat(cycle[:log2(n)], wb.adr) (granule index in the low bits)",
                         f"the sequencer contributes cycle[:{ir.show(hi)}] -- a bit count linear in the number of granules n; log2(n) bits are "
